@@ -572,7 +572,9 @@ def check_case(case, rec):
         # a failing case is executed a second time; differing observations would be uncaptured nondeterminism
         again = execute(case)
         if [c for c, _ in again[3]] != [c for c, _ in viol] or again[1] != out_key:
-            raise RuntimeError(f"non-deterministic observation for {case!r}: {viol!r} then {again[3]!r}")
+            # depends on what ran before in this process (hidden state) or is nondeterministic:
+            # the harness re-executes every reported violation (case, then whole shard in a fresh process) and decides
+            rec.count("diverged_on_immediate_reexecution")
         for clause, detail in viol:
             rec.violation(op, clause, case, detail)
     else:
